@@ -30,12 +30,19 @@ Definition abi_names_ok (a b : term) : bool :=
   | Some x, Some y => String.eqb x y
   | None, None => true
   end.
-(* Opt(Abi) on both sides *)
+(* Opt(Abi) on both sides: Some/Some with compatible names, or None/None *)
+Definition abi_shape (x : term) : bool :=
+  match x with
+  | Node la [Node ln []] => is_kind "Abi" la
+  | Node la [Node ln [Node ls []]] => is_kind "Abi" la
+  | _ => false
+  end.
 Definition abi_ok (a b : term) : bool :=
   match a, b with
   | Node la [x], Node lb [y] =>
-      is_kind "OSome" la && is_kind "OSome" lb && abi_names_ok x y
-  | Node la [], Node lb [] => is_kind "ONone" la && is_kind "ONone" lb
+      label_eqb la (K "OSome" "") && label_eqb lb (K "OSome" "") &&
+      abi_shape x && abi_shape y && abi_names_ok x y
+  | Node la [], Node lb [] => label_eqb la (K "ONone" "") && label_eqb lb (K "ONone" "")
   | _, _ => false
   end.
 
@@ -65,7 +72,7 @@ Definition garg_with (f : term -> term -> option subs) (x y : term) : option sub
         match kx, ky with
         | [tx], [ey] =>
             match ty_param tx with
-            | Some p => Some (subs_new p ey)
+            | Some p => if label_eqb ly (K "GConst" "") then Some (subs_ex p ey) else None
             | None => None
             end
         | _, _ => None
@@ -73,10 +80,11 @@ Definition garg_with (f : term -> term -> option subs) (x y : term) : option sub
       else f x y
   end.
 
-Definition param_vs (p : string) (other : option string) (b : term) : option subs :=
+Definition param_vs (mk : string -> term -> subs) (p : string) (other : option string)
+           (b : term) : option subs :=
   match other with
-  | Some q => if String.eqb p q then Some (subs_identity p) else Some (subs_new p b)
-  | None => Some (subs_new p b)
+  | Some q => if String.eqb p q then Some (subs_identity p) else Some (mk p b)
+  | None => Some (mk p b)
   end.
 
 (* One unfolding of the matcher on [Node la ka] against [Node lb kb].  [rec] is used on
@@ -100,13 +108,16 @@ Definition sup_step (rec : term -> term -> option subs) (self : term -> option s
   (* a parameter binds anything; against itself it is the identity (ty.rs:20-29,
      expr.rs:39-48) *)
   match ty_param a with
-  | Some p => param_vs p (ty_param b) b
+  | Some p => param_vs subs_ty p (ty_param b) b
   | None =>
   match ex_param a with
-  | Some p => param_vs p (ex_param b) b
+  | Some p => param_vs subs_ex p (ex_param b) b
   | None =>
   if is_kind "Lifetime" la then
-    if is_kind "Lifetime" lb && lifetime_ok la lb then Some [] else None
+    match ka, kb with
+    | [], [] => if is_kind "Lifetime" lb && lifetime_ok la lb then Some [] else None
+    | _, _ => None
+    end
   else if is_kind "QSelf" la then
     (* path.rs:130-146: only under an all-identity result *)
     if label_eqb la lb then
@@ -125,7 +136,7 @@ Definition sup_step (rec : term -> term -> option subs) (self : term -> option s
       end
     else None
   else if is_kind "AAngle" la then
-    if is_kind "AAngle" lb then kids_with (garg_with rec) [] ka kb else None
+    if label_eqb la lb then kids_with (garg_with rec) [] ka kb else None
   else if is_kind "TBareFn" la then
     (* ty.rs:156-189: [lifetimes; abi; inputs; output] *)
     if label_eqb la lb then
